@@ -6,7 +6,11 @@ HOOK_COMMITS = ["d85c6ee", "170bde9", "43ffa35", "8043914", "4c6f2d6"]
 
 # id -> (engine, category, technique, level text, level note, design ref)
 CHECKS = {
- "C12": ("E2-explicit-state", "model_checking",
+ "C09": ("E1-simnet-explorer", "model_checking",
+   "deviation-bounded exhaustive exploration of adversarial injections and reply faults on a real node over a simulated network, differential oracle against the unperturbed run",
+   "A real node (real actor thread, socket layer and codec) runs a lookup and a put over scripted endpoints; at every network event an adversary may inject every (kind x guessable transaction id x wrong source) message, and every genuine reply may be duplicated or delayed past its timeout; all single deviations (quick) and pairs over the sharpest kinds (thorough) are enumerated and each execution's observable outcome (call results, routing tables, cached nodes, address votes, stored values) must equal the unperturbed one.",
+   "One operation scenario (get then put, 3 endpoints); forged messages from the right address are outside the oracle.", "DESIGN.md section 6, C09"),
+  "C12": ("E2-explicit-state", "model_checking",
    "explicit-state BFS over operation sequences whose state is the real RoutingTable plus the virtual clock; invariants on every state, transition relation on every step",
    "From six initial states (empty, 19/20-node buckets, aged across the 15-minute staleness boundary, stale head with fresh tail) every sequence of up to 5 (quick) / 6 (thorough) operations over a 21-action alphabet (adds that stress the bucket and the per-IP rules, removes, re-keys, clock steps) is executed on the real table; structural and Sybil invariants are checked in every state and the eviction rule across every add.",
    "Node ids/IPs come from a fixed pool; BEP42 security decided by the independent reference.", "DESIGN.md section 6, C12"),
